@@ -28,7 +28,7 @@ ENCODING_ASSUMPTIONS = [
 
 
 # properties whose deciding content is mostly NOT deductive are reported as `other`, with the explanation below
-LEVEL_OVERRIDE = {"C07": "other", "C20": "other", "C06": "other", "C10": "other", "C01": "other", "C05": "other"}
+LEVEL_OVERRIDE = {"C07": "other", "C20": "other", "C04": "other", "C06": "other", "C10": "other", "C01": "other", "C05": "other"}
 
 
 def _strip_line(n):
